@@ -124,19 +124,51 @@ Definition step (t : tok) (st : list sitem) (out : list op) : res (list sitem * 
       Ok (SOp o :: st1, out1)
   end.
 
-Fixpoint run (ts : list tok) (st : list sitem) (out : list op) : res (list sitem * list op) :=
+(* the adjacency check at the head of the loop body:
+     startsOperand := open bracket || (operation && NumArgs < 2)
+     prevEndsOperand := close bracket || (operation && NumArgs == 0)
+     prevIsPrefixOp := operation && NumArgs == 1 *)
+Definition starts_operand (t : tok) : bool :=
+  match t with TOpen _ => true | TOp o => o_nargs o <? 2 | TClose _ _ => false end.
+Definition ends_operand (t : tok) : bool :=
+  match t with TClose _ _ => true | TOp o => o_nargs o =? 0 | TOpen _ => false end.
+Definition is_prefix_op (t : tok) : bool :=
+  match t with TOp o => o_nargs o =? 1 | _ => false end.
+Definition is_open_paren (t : tok) : bool :=
+  match t with TOpen BParen => true | _ => false end.
+
+Definition adjacency_error (prev_ends prev_prefix : bool) (t : tok) : bool :=
+  starts_operand t && (prev_ends || (prev_prefix && negb (is_open_paren t))).
+
+(* in the closeBracket case: len(opStack) == 0 && index != len(tokens)-1 *)
+Definition outer_closed (t : tok) (st' : list sitem) (rest : list tok) : bool :=
+  match t with
+  | TClose BParen _ =>
+      match st' with
+      | [] => match rest with [] => false | _ :: _ => true end
+      | _ :: _ => false
+      end
+  | _ => false
+  end.
+
+Fixpoint run (ts : list tok) (prev_ends prev_prefix : bool) (st : list sitem) (out : list op)
+  : res (list sitem * list op) :=
   match ts with
   | [] => Ok (st, out)
   | t :: r =>
-      match step t st out with
-      | Ok (st', out') => run r st' out'
-      | Err e => Err e
-      end
+      if adjacency_error prev_ends prev_prefix t then Err EBadExpr
+      else
+        match step t st out with
+        | Ok (st', out') =>
+            if outer_closed t st' r then Err (ENoOpen BParen)
+            else run r (ends_operand t) (is_prefix_op t) st' out'
+        | Err e => Err e
+        end
   end.
 
-(* opStack = [ ( ] ; tokens = infixTokens ++ [ ) ] ; … ; if len(opStack) > 0 { error } *)
+(* opStack = [ ( ] ; tokens = infixTokens ++ [ ) ] ; ... ; if len(opStack) > 0 { error } *)
 Definition convert_to_postfix (ts : list tok) : res (list op) :=
-  match run (ts ++ [TClose BParen false]) [SOpen BParen] [] with
+  match run (ts ++ [TClose BParen false]) false false [SOpen BParen] [] with
   | Err e => Err e
   | Ok ([], out) => Ok out
   | Ok (_ :: _, _) => Err ELeftover
